@@ -746,6 +746,8 @@ class Flwdir(object):
         qbankfull = self._check_data(qbankfull, "qbankfull")
         rivwth = self._check_data(rivwth, "rivwth")
         # in case of manning either rivslp or zs&rivdst are optional
+        if rivslp is None and (zs is None or rivdst is None):
+            raise ValueError('"rivslp" is required if "zs" or "rivdst" is not provided.')
         _opt = method == "manning" and rivslp is not None
         rivslp = self._check_data(rivslp, "rivslp", optional=True)
         rivdst = self._check_data(rivdst, "rivdst", optional=_opt)
